@@ -7,7 +7,7 @@ From D3 Require Import Base.Ops Base.Vec Model.TetSym Gen.TetTables Model.TetMes
                        Proofs.TetMeshBase Proofs.TetMeshBox Proofs.TetMeshCyl
                        Proofs.TetMeshIcoKey Proofs.TetMeshIcoPure Proofs.TetMeshIco Proofs.TetMeshHelpers
                        Proofs.TetMeshCaps Proofs.TetMeshCurved Model.TetMeshBody Proofs.TetMeshBodyProofs
-                       Proofs.TetMeshBoxCom.
+                       Proofs.TetMeshBoxCom Proofs.TetMeshCylDisj.
 Import ListNotations.
 Local Open Scope R_scope.
 
@@ -55,6 +55,15 @@ Theorem C17_cylinder_volumes : forall radius len rim,
   (* = 6 * len * area of the polygon spanned by the rim points *)
   sum_vol6 1 (mverts m) (mtets m) = Some (3 * len * pairs_sum rim (sector_pairs (length rim))).
 Proof. exact cyl_mesh_rim_volumes. Qed.
+
+(** no two elements of the cylinder mesh overlap, when the angular sectors do not overlap
+    ([sectors_apart]: for any two sectors some line through the axis has one on each side) *)
+Theorem C17_cylinder_disjoint : forall radius len rim,
+  0 < radius -> 0 < len ->
+  ccw_pairs rim (sector_pairs (length rim)) -> sectors_apart rim (sector_pairs (length rim)) ->
+  let m := cyl_mesh_rim (O := ROps) radius len rim in
+  interiors_disjoint (mverts m) (mtets m).
+Proof. exact cyl_mesh_rim_disjoint. Qed.
 
 (** class boundaries (long / medium / short) *)
 Theorem C17_cylinder_classes : forall radius len,
@@ -218,13 +227,22 @@ Proof. split; vm_compute; reflexivity. Qed.
 Example C17_cylinder_nonvacuous :
   let rim := [(1, 0); (0, 1); (-1, 0); (0, -1)] in
   ccw_pairs rim (sector_pairs (length rim)) /\ on_circle 1 rim /\
-  length (cyl_elements TetTables.cyl_long (length rim)) = 20%nat.
+  length (cyl_elements TetTables.cyl_long (length rim)) = 20%nat /\
+  sectors_apart rim (sector_pairs (length rim)).
 Proof.
-  split; [|split].
+  split; [|split; [|split]].
   - repeat constructor; cbn [fst snd]; eexists; eexists; (split; [reflexivity|split; [reflexivity|]]);
       unfold cross2; cbn [fst snd]; lra.
   - repeat constructor; cbn [fst snd]; lra.
   - reflexivity.
+  - unfold sectors_apart. cbn [length sector_pairs seq map combine Z.of_nat Pos.of_succ_nat Pos.succ Z.sub Z.add Z.opp Z.pos_sub].
+    repeat constructor; cbn [fst snd]; intros pi pj pk pl Hi Hj Hk Hl;
+      vm_compute in Hi, Hj, Hk, Hl; inversion Hi; inversion Hj; inversion Hk; inversion Hl; subst;
+      unfold sep_dir, cross2; cbn [fst snd];
+      first [ exists 1, 0; split; [left; lra|repeat split; lra]
+            | exists 0, 1; split; [right; lra|repeat split; lra]
+            | exists (-1), 0; split; [left; lra|repeat split; lra]
+            | exists 0, (-1); split; [right; lra|repeat split; lra] ].
 Qed.
 
 Example C17_capsule_nonvacuous :
@@ -256,6 +274,7 @@ Print Assumptions C17_box_exact_tiling.
 Print Assumptions C17_cube_exact_tiling.
 Print Assumptions C17_elements_in_box.
 Print Assumptions C17_cylinder_volumes.
+Print Assumptions C17_cylinder_disjoint.
 Print Assumptions C17_cylinder_classes.
 Print Assumptions C17_cylinder_potentials.
 Print Assumptions C17_capsule_volumes.
